@@ -1,7 +1,6 @@
 import LhasaV.Driver.Hex
 import LhasaV.Spec.LhNewEnc
 import LhasaV.Spec.Lzhuf
-import LhasaV.Gen.Decoders
 /-!
 Ops of the static-Huffman stream specification (`LhasaV.Spec.LhNewEnc`):
 
@@ -18,13 +17,12 @@ Ops of the static-Huffman stream specification (`LhasaV.Spec.LhNewEnc`):
 namespace LhasaV.Driver
 open LhasaV LhasaV.Spec.LhNewEnc LhasaV.Spec.Lz77
 
-open Gen in
 def fmtFor : String → Option Fmt
-  | "lh4" | "lh5" => some ⟨lh5OffsetBits, lh5NumCodes, lh5MaxTempCodes, lh5MaxOffsetCodes, lh5RingSize, lh5Lhark != 0⟩
-  | "lh6" => some ⟨lh6OffsetBits, lh6NumCodes, lh6MaxTempCodes, lh6MaxOffsetCodes, lh6RingSize, lh6Lhark != 0⟩
-  | "lh7" => some ⟨lh7OffsetBits, lh7NumCodes, lh7MaxTempCodes, lh7MaxOffsetCodes, lh7RingSize, lh7Lhark != 0⟩
-  | "lhx" => some ⟨lhxOffsetBits, lhxNumCodes, lhxMaxTempCodes, lhxMaxOffsetCodes, lhxRingSize, lhxLhark != 0⟩
-  | "lk7" => some ⟨lk7OffsetBits, lk7NumCodes, lk7MaxTempCodes, lk7MaxOffsetCodes, lk7RingSize, lk7Lhark != 0⟩
+  | "lh4" | "lh5" => some Spec.LhNewEnc.lh5
+  | "lh6" => some Spec.LhNewEnc.lh6
+  | "lh7" => some Spec.LhNewEnc.lh7
+  | "lhx" => some Spec.LhNewEnc.lhx
+  | "lk7" => some Spec.LhNewEnc.lk7
   | _ => none
 
 def parseDotNats (s : String) : Option (List Nat) :=
